@@ -20,7 +20,7 @@ import json
 FUEL = 300  # recursion depth given to the model; generated trees are far shallower
 
 SEGS = ["a", "b", "c", "q"]
-IDS = ["s1", "s2", "web-1"]
+IDS = ["s1", "s2", "web-1", "S1"]
 PDATAS = [{}, {"role": "web"}, {"role": "db", "n": {"x": 1}}, {"role": "web", "flag": False, "count": 0}]
 CONDS = [None, None, None, ["id", "s1"], ["id", "web-1"], ["nid", "s1"], ["data", "role", "web"]]
 TOP_EXPRS = ["*", "s1", "s*", "web-* or s2", "not s1", "@data_literal:role@web", "@data_glob:role@d*",
@@ -438,6 +438,10 @@ def gen_pool(rng, templated, paths):
             blocks.append({"cond": rng.choice(CONDS[3:]), "items": [[rng.choice(["k", "j", "y"]), gen_value(rng, "k")]]})
         pool.append({"blocks": blocks})
     pool.append({"raw": "{}\n"})
+    if templated:
+        # a template that loads an object through vinegar's serialisation extension and changes it in place
+        pool.append({"raw": "{% load_yaml as d %}{l: [], n: 0}{% endload %}{% do d.l.append(id) %}{% do d.update({'n': d.l | length}) %}"
+                            "loaded: {{ d | yaml }}\n"})
     # two texts that differ only in the white space in front of the first line - and in what they mean
     pool.append({"raw": "d:\n  u: 1\n"})
     pool.append({"raw": "  d:\n  u: 1\n"})
@@ -449,7 +453,8 @@ C12_PATHS = ["a", "b", "q", "c", "a/init", "a/q", "a/q/init", "a/q/q", "a/b", "q
 
 def gen_c12_top(rng, templated, paths):
     names = _names_of(paths)
-    exprs = rng.sample(["*", "s1", "not s1", "@data_literal:role@web", "s*", "web-*"], rng.randint(1, 3))
+    exprs = rng.sample(["*", "s1", "not s1", "@data_literal:role@web", "s*", "web-*", "@id_literal@s1", "@id_glob@s*",
+                        "@id_literal@S1"], rng.randint(1, 3))
     if "*" not in exprs and rng.random() < 0.7:
         exprs.insert(0, "*")
     blocks = [{"cond": None, "items": [[e, [rng.choice(names) for _ in range(rng.choice([1, 1, 2, 3]))]] for e in exprs]}]
